@@ -8,27 +8,39 @@ package recovery
 //@   property C10
 //@   safety C10
 //@   requires decryptHeader != nil && verifyHeader != nil
-//@   modifies *, indexWrites, ghosts(C04)
+//@   modifies *, indexWrites, ghosts(C04), ghosts(C08)
 //@   ensures [drive-unchanged] driveHeld == old(driveHeld)
 //@   property C04
 //@   requires [grid] reader.DriveIsRegular ==> pipes.RecordSize >= 1 && record >= 0 && block >= 0 && block < pipes.RecordSize
 //@   loop 1 invariant [position] trBroken[tr] || (0 <= block && block < pipes.RecordSize && 512*(pipes.RecordSize*record+block) == drivePos[reader.Drive] + trSkip[tr] && trSrc(tr) == reader.Drive && trUnread[tr] == 0)
-//@   at call indexHeader#1 assert [header-position] 512*(pipes.RecordSize*arg_record+arg_block) == hdrStart(arg_tarhdr) && 0 <= arg_block && arg_block < pipes.RecordSize
+//@   at call indexHeader#1 assert [header-position] 512*(pipes.RecordSize*arg_record+arg_block) == hdrStart(arg_hdr) && 0 <= arg_block && arg_block < pipes.RecordSize
+//@   property C08
+//@   maybe verifyHeader is HeaderVerifier|NoopVerifier
+//@   maybe decryptHeader is HeaderSubst|HeaderDecryptor
+//@   requires [real-verifier-or-subst] conforms(verifyHeader, HeaderVerifier) || (conforms(decryptHeader, HeaderSubst) && conforms(verifyHeader, NoopVerifier))
+//@   at call indexHeader#1 assert [accept-site] hdrVerified[arg_hdr] || hdrSubstituted[arg_hdr]
+//@   at call indexHeader#2 assert [accept-site-tape] hdrVerified[arg_hdr] || hdrSubstituted[arg_hdr]
 
 //@ func Query
 //@   property C10
 //@   safety C10
-//@   modifies *, ghosts(C04)
+//@   modifies *, ghosts(C04), ghosts(C08)
 //@   ensures [drive-unchanged] driveHeld == old(driveHeld)
 //@   property C04
 //@   requires [grid] reader.DriveIsRegular ==> pipes.RecordSize >= 1 && record >= 0 && block >= 0 && block < pipes.RecordSize
 //@   loop 1 invariant [position] trBroken[tr] || (0 <= block && block < pipes.RecordSize && 512*(pipes.RecordSize*record+block) == drivePos[reader.Drive] + trSkip[tr] && trSrc(tr) == reader.Drive && trUnread[tr] == 0)
+//@   property C08
+//@   at call append#1 assert [accept-site] hdrVerified[hdr]
+//@   property C04
 //@   at call TarHeaderToDBHeader#1 assert [header-position] 512*(pipes.RecordSize*arg_record+arg_block) == hdrStart(arg_tarhdr) && 0 <= arg_block && arg_block < pipes.RecordSize
 
 //@ func Fetch
 //@   property C10
 //@   safety C10
-//@   modifies *, ghosts(C04)
+//@   modifies *, ghosts(C04), ghosts(C08)
 //@   ensures [drive-unchanged] driveHeld == old(driveHeld)
 //@   property C04
 //@   at call Seek#1 assert [seek-target] arg_offset == 512*(pipes.RecordSize*record+block) && arg_whence == 0
+//@   property C08
+//@   at call getDst assert [accept-site] hdrVerified[hdr]
+//@   at call mkdirAll assert [accept-site-dir] hdrVerified[hdr]
